@@ -440,6 +440,10 @@ def run_generated(seed_parts, acc, want_dir=True):
             dp = os.path.join(tmp, "dir")
             try:
                 zipfile.ZipFile(io.BytesIO(data)).extractall(dp)
+                if sum(seed_parts[-1:]) % 2 if isinstance(seed_parts[-1], int) else False:
+                    os.symlink(dp, dp + "-link")  # the same directory reached through a symbolic link
+                    dp = dp + "-link"
+                    acc.count("directory_packages_opened_through_a_symlink")
                 roundtrip(openers()[0][1], dp, acc, witness, "generated %s directory OpcPackage" % (list(seed_parts),), pin)
             except OSError:
                 acc.count("directory_form_not_extractable")
@@ -461,8 +465,12 @@ def run_corpus(path, acc):
         roundtrip(fn, path, acc, witness, "%s path %s" % (name, cname), pin)
         roundtrip(fn, io.BytesIO(open(path, "rb").read()), acc, witness, "%s stream %s" % (name, cname), pin)
         with env.Scratch("c01") as tmp:
-            zipfile.ZipFile(path).extractall(tmp)
-            roundtrip(fn, tmp, acc, witness, "%s directory %s" % (name, cname), pin)
+            real = os.path.join(tmp, "pkg")
+            zipfile.ZipFile(path).extractall(real)
+            roundtrip(fn, real, acc, witness, "%s directory %s" % (name, cname), pin)
+            os.symlink(real, os.path.join(tmp, "via-link"))  # the same directory reached through a symbolic link
+            roundtrip(fn, os.path.join(tmp, "via-link"), acc, witness, "%s directory-through-symlink %s" % (name, cname), pin)
+            acc.count("directory_packages_opened_through_a_symlink")
         acc.case(desc={"deck": name, "class": cname}, nontrivial=len(pin.reachable()) >= 10, cls="corpus")
 
 
